@@ -297,6 +297,16 @@ def analyse_tu(src, tier="quick", extra=(), keep_ir=False):
                     res["indeterminate"].append(e)
             else:
                 res["negctl_declared"].append(e)
+        # jump threading can duplicate one obligation point into a copy whose condition is the constant false (on a path LLVM has not
+        # proved dead in declare mode) next to a copy with the condition true / symbolic: only a point ALL of whose copies fold to
+        # false / undef is a refutation
+        conds = {}
+        for e in res["declared"]:
+            conds.setdefault((e["func"], e["id"], tuple(e["ints"])), set()).add(e["cond"])
+        def _all_bad(e):
+            return conds.get((e["func"], e["id"], tuple(e["ints"])), set()) <= {0, "undef"}
+        res["refuted"] = [e for e in res["refuted"] if _all_bad(e)]
+        res["indeterminate"] = [e for e in res["indeterminate"] if _all_bad(e)]
         for c in pcalls:
             if c["kind"] == "__verif_negctl":
                 res["negctl_residual"].append(dict(func=dm.get(c["func"], c["func"]), id=c["id"], ints=list(c["ints"])))
@@ -322,7 +332,8 @@ def analyse_tu(src, tier="quick", extra=(), keep_ir=False):
                 if not ok:
                     continue
                 c2, _ = parse_ir(open(cur).read())
-                still = set((dm.get(c["func"], c["func"]), c["id"], tuple(c["ints"])) for c in c2 if c["kind"] == "__verif_declare" and c["cond"] in (0, "undef"))
+                ok2 = set((dm.get(c["func"], c["func"]), c["id"], tuple(c["ints"])) for c in c2 if c["kind"] == "__verif_declare" and c["cond"] not in (0, "undef"))
+                still = set((dm.get(c["func"], c["func"]), c["id"], tuple(c["ints"])) for c in c2 if c["kind"] == "__verif_declare" and c["cond"] in (0, "undef")) - ok2
                 cand &= still
                 if not cand:
                     break
